@@ -22,7 +22,9 @@ RULE = (
     "G-stream dart.operation ops (snax_alu 1-D/2-D add/mul; snax_gemmx matmul (mac/qmac), gemm+add, matmul+rescale, rescale-only, conv-like "
     "i+j patterns; snax_xdma add) with shapes from small factor sets incl. non-multiples of the template, operand layouts none (compiler "
     "chooses, tiled and untiled), given strided (permuted/padded, offsets) and given #tsl; pushed through the real scheduling / layout / "
-    "stream-conversion passes. One program = one op whose streams were compared. Non-trivial: >=2 temporal steps and >=2 ports; distinct by "
+    "stream-conversion passes; 25 % of the modules hold a second operation of the same kind for the same accelerator (other sizes / "
+    "layouts) in a function @main2 before or after the judged one, handled by the same application of every pass. One program = one op "
+    "whose streams were compared. Non-trivial: >=2 temporal steps and >=2 ports; distinct by "
     "(accelerator, kernel kind, shapes, layout sources, tiled flag)."
 )
 ASSUMPTIONS = [
@@ -39,7 +41,7 @@ TIERS = {
     "thorough": {"shards": 16, "cases": 1800, "timeout": 7200},
 }
 FLOORS = {
-    "quick": {"programs": 250, "streams_compared": 700, "steps_compared": 15000, "distinct_nontrivial": 80},
+    "quick": {"programs": 250, "streams_compared": 700, "steps_compared": 15000, "distinct_nontrivial": 80, "cases_second_operation_in_module": 50},
     "thorough": {"programs": 9000, "streams_compared": 27000, "distinct_nontrivial": 400},
 }
 MAX_POINTS = 80_000
@@ -96,6 +98,25 @@ def observed_stream(ub, ts, ss, spatial_dims):
 GEMMX_PORT_BITS = [8, 8, 8, 32, 32]
 
 
+def in_main(op):
+    """True unless the op sits in a function other than @main (the second operation of a two-function module is not judged)."""
+    p = op.parent_op()
+    while p is not None and p.name != "func.func":
+        p = p.parent_op()
+    return p is None or p.sym_name.data == "main"
+
+
+def merge_two(t1, t2, first):
+    """Two single-function modules -> one module with @main (judged) and @main2, in the given order: whatever a pass remembers from
+    one operation must not leak into the other."""
+    b1 = t1.strip().split("\n")
+    b2 = t2.strip().split("\n")
+    assert b1[0].startswith("builtin.module") and b2[0].startswith("builtin.module")
+    i1 = "\n".join(b1[1:-1])
+    i2 = "\n".join(b2[1:-1]).replace("@main(", "@main2(")
+    return b1[0] + "\n" + (i2 + "\n" + i1 if first else i1 + "\n" + i2) + "\n}\n"
+
+
 def run_case(case, res):
     c = ctx()
     out = []
@@ -121,7 +142,7 @@ def run_case(case, res):
     except Exception as e:
         R.reject(res, e)
         return out
-    scheds = [op for op in m.walk() if op.name == "dart.schedule"]
+    scheds = [op for op in m.walk() if op.name == "dart.schedule" and in_main(op)]
     if len(scheds) != 1:
         R.reject(res, f"schedule-ops:{len(scheds)}")
         return out
@@ -153,13 +174,16 @@ def run_case(case, res):
     if any("Non-contiguous access detected" in str(w.message) for w in wlist):
         R.reject(res, "announced-unsupported:non-contiguous-warning")
         return out
-    regions = [op for op in m.walk() if op.name == "snax_stream.streaming_region"]
+    regions = [op for op in m.walk() if op.name == "snax_stream.streaming_region" and in_main(op)]
     if len(regions) != 1:
         R.reject(res, f"streaming-regions:{len(regions)}")
         return out
     reg = regions[0]
     streamers = acc.streamer_config.data.streamers
     res["programs"] += 1
+    if case.get("second_op"):
+        R.bump(res, "cases_second_operation_in_module")
+        R.bump(res, "second_operation:" + case["second_op"])
     nontrivial = False
     layout_classes = []
     matched_operands = set()
@@ -343,6 +367,7 @@ def attribute(v):
 def run_shard(seed, shard, n_cases, tier):
     res = R.new_result()
     rng = random.Random(seed)
+    rng_d = random.Random((seed << 4) ^ 0x2D0B)  # own stream: the judged operations stay what they were
     for i in range(n_cases):
         r = rng.random()
         if r < 0.55:
@@ -362,6 +387,20 @@ def run_shard(seed, shard, n_cases, tier):
             g = gen_op(rng, layouts=("tsl",))
             tiled = "off"
         case = {"text": g["text"], "kind": g["kind"], "acc": g["acc"], "shapes": g["shapes"], "layouts": g["layouts"], "tiled": tiled}
+        if rng_d.random() < 0.25:
+            # a second operation for the same accelerator (same kind, other sizes / layouts) in a function @main2 before or after
+            # the judged one: every pass of the chain handles both in one application
+            base_kind = g["kind"].split("+")[0]
+            for _ in range(6):
+                try:
+                    g2 = gen_op(rng_d, layouts=tuple(sorted(set(g["layouts"]))) or ("none",), kinds=[base_kind])
+                except Exception:  # noqa: BLE001
+                    continue
+                if g2["acc"] == g["acc"]:
+                    first = rng_d.random() < 0.5
+                    case["text"] = merge_two(g["text"], g2["text"], first)
+                    case["second_op"] = "before" if first else "after"
+                    break
         for v in run_case(case, res):
             R.violation(res, v["kind"], v["detail"], v["case"], attribute(v), info=v.get("info"))
         R.seen(res, "kinds", f"{g['kind']}/{'+'.join(sorted(set(g['layouts'])))}/{tiled}")
